@@ -20,11 +20,20 @@ type comparison =
 
 val compOpp : comparison -> comparison
 
-val map : ('a1 -> 'a2) -> 'a1 list -> 'a2 list
+val add : nat -> nat -> nat
 
-val fold_left : ('a1 -> 'a2 -> 'a1) -> 'a2 list -> 'a1 -> 'a1
+val sub : nat -> nat -> nat
 
-val fold_right : ('a2 -> 'a1 -> 'a1) -> 'a1 -> 'a2 list -> 'a1
+val eqb : bool -> bool -> bool
+
+module Nat :
+ sig
+  val eqb : nat -> nat -> bool
+
+  val leb : nat -> nat -> bool
+
+  val ltb : nat -> nat -> bool
+ end
 
 type positive =
 | XI of positive
@@ -73,23 +82,69 @@ module Coq_Pos :
 
   val sub_mask_carry : positive -> positive -> mask
 
+  val mul : positive -> positive -> positive
+
+  val size : positive -> positive
+
   val compare_cont : comparison -> positive -> positive -> comparison
 
   val compare : positive -> positive -> comparison
 
   val eqb : positive -> positive -> bool
+
+  val iter_op : ('a1 -> 'a1 -> 'a1) -> positive -> 'a1 -> 'a1
+
+  val to_nat : positive -> nat
  end
 
 module N :
  sig
+  val succ_double : n -> n
+
+  val double : n -> n
+
+  val add : n -> n -> n
+
   val sub : n -> n -> n
+
+  val mul : n -> n -> n
 
   val compare : n -> n -> comparison
 
   val eqb : n -> n -> bool
 
   val leb : n -> n -> bool
+
+  val ltb : n -> n -> bool
+
+  val log2 : n -> n
+
+  val pos_div_eucl : positive -> n -> n * n
+
+  val div_eucl : n -> n -> n * n
+
+  val div : n -> n -> n
+
+  val modulo : n -> n -> n
+
+  val to_nat : n -> nat
  end
+
+val rev : 'a1 list -> 'a1 list
+
+val concat : 'a1 list list -> 'a1 list
+
+val map : ('a1 -> 'a2) -> 'a1 list -> 'a2 list
+
+val flat_map : ('a1 -> 'a2 list) -> 'a1 list -> 'a2 list
+
+val forallb : ('a1 -> bool) -> 'a1 list -> bool
+
+val firstn : nat -> 'a1 list -> 'a1 list
+
+val skipn : nat -> 'a1 list -> 'a1 list
+
+val repeat : 'a1 -> nat -> 'a1 list
 
 module Z :
  sig
@@ -103,111 +158,218 @@ module Z :
 
   val add : z -> z -> z
 
+  val opp : z -> z
+
+  val mul : z -> z -> z
+
   val compare : z -> z -> comparison
 
   val leb : z -> z -> bool
 
-  val ltb : z -> z -> bool
-
   val eqb : z -> z -> bool
+
+  val of_N : n -> z
  end
+
+type ascii =
+| Ascii of bool * bool * bool * bool * bool * bool * bool * bool
+
+val eqb0 : ascii -> ascii -> bool
+
+type string =
+| EmptyString
+| String of ascii * string
+
+val eqb1 : string -> string -> bool
 
 type bytes = n list
 
+val sp : n
+
+val zero : n
+
 val bytes_eqb : bytes -> bytes -> bool
 
-val bcmp : bytes -> bytes -> comparison
+val rune_error : n
 
-val is_eq : comparison -> bool
+val cont : n -> bool
 
-type entry = { e_trace : bytes; e_amount : z; e_addenda : z; e_id : n }
+val seq_size : n -> nat
 
-type header = { h_scc : z; h_name : bytes; h_cid : bytes; h_sec : bytes;
-                h_desc : bytes; h_eed : bytes; h_odfi : bytes; h_rest : 
-                n }
+val second_ok : n -> n -> bool
 
-val upper : n -> n
+val chunks : bytes -> (n * bytes) list
 
-val fold_eq : bytes -> bytes -> bool
+val runes : bytes -> n list
 
-val header_equal : header -> header -> bool
+val rune_count : bytes -> nat
 
-type ibatch = { ib_header : header; ib_entries : entry list }
+val encode_rune : n -> bytes
 
-type ifile = { if_origin : bytes; if_dest : bytes; if_hid : n;
-               if_batches : ibatch list }
+val encode : n list -> bytes
 
-type tmap = (bytes * entry) list
+type seg =
+| SLit of bytes
+| SAlpha of string * nat
+| SNum of string * nat
+| SStr of string * nat
+| SRaw of string
+| SItoa of string
+| SCustom of string * string
+| SUnknown of string
 
-val tm_contains : bytes -> tmap -> bool
+type cut = { c_lo : nat; c_hi : nat; c_field : string; c_conv : string list;
+             c_const : bytes option }
 
-val tm_set : bytes -> entry -> tmap -> tmap
+val mkcut : nat -> nat -> string -> string list -> cut
 
-type obatch = { ob_header : header; ob_entries : tmap }
+val mkconst : string -> bytes -> cut
 
-type ofile = { of_origin : bytes; of_dest : bytes; of_hid : n;
-               of_batches : obatch list }
+type indexing =
+| IRune
+| IByte
 
-val place : header -> entry -> obatch list -> obatch list
+type layout = { l_name : string; l_ix : indexing; l_segs : seg list;
+                l_cuts : cut list }
 
-val add_batch : obatch list -> ibatch -> obatch list
+type value =
+| VS of bytes
+| VI of z
 
-val add_to : ofile -> ifile -> ofile
+type recval = (string * value) list
 
-val new_ofile : ifile -> ofile
+val lookup : recval -> string -> value option
 
-val same_route : ofile -> ifile -> bool
+val gets : recval -> string -> bytes
 
-val add_file : ofile list -> ifile -> ofile list
+val geti : recval -> string -> z
 
-val build_state : ifile list -> ofile list
+val spaces : nat -> bytes
 
-type rbatch = { rb_number : z; rb_header : header; rb_entries : entry list }
+val zeros : nat -> bytes
 
-type rfile = { rf_origin : bytes; rf_dest : bytes; rf_hid : n;
-               rf_batches : rbatch list }
+val is_space : n -> bool
 
-type conds = { maxLines : z; maxDollar : z }
+val drop_space : (n * bytes) list -> (n * bytes) list
 
-val nacha_limit : z
+val trim : bytes -> bytes
 
-val effective_dollar : conds -> z
+val rune_prefix : nat -> bytes -> bytes
 
-type cstate = { c_out : rfile list; c_file : rbatch list;
-                c_bent : entry list; c_L : z; c_D : z; c_bn : z }
+val alphaField : bytes -> nat -> bytes
 
-val renumber : z -> rbatch list -> rbatch list
+val stringField : bytes -> nat -> bytes
 
-val create_file : ofile -> rbatch list -> rfile
+val digits_fuel : nat -> n -> bytes -> bytes
 
-val close_batch : header -> cstate -> rbatch list
+val digits : n -> bytes
 
-val close_file : ofile -> rbatch list -> rfile list -> rfile list
+val itoa : z -> bytes
 
-val exceeds : conds -> z -> z -> z -> entry -> bool
+val numericField : z -> nat -> bytes
 
-val step_entry : conds -> z -> ofile -> header -> cstate -> entry -> cstate
+val is_digit : n -> bool
 
-val step_batch : conds -> z -> ofile -> cstate -> obatch -> cstate
+val digits_val : bytes -> z -> z
 
-val step_file : conds -> z -> (rfile list * z) -> ofile -> rfile list * z
+val max_int64 : z
 
-val convert : conds -> ofile list -> rfile list
+val min_int64 : z
 
-val merge_files : ifile list -> conds -> rfile list
+val atoi : bytes -> z
 
-val entry_lines : entry -> z
+val atoi_opt : bytes -> z option
 
-val zsum : z list -> z
+val parseNumField : bytes -> z
 
-val batch_lines : rbatch -> z
+val aUTOENROLL : bytes
 
-val batch_amount : rbatch -> z
+val eNR : bytes
 
-val batches_lines : rbatch list -> z
+val render_custom : string -> recval -> bytes option
 
-val batches_amount : rbatch list -> z
+val render_seg : recval -> seg -> bytes
 
-val file_lines : rfile -> z
+val render : layout -> recval -> bytes
 
-val file_amount : rfile -> z
+val units : indexing -> bytes -> bytes list
+
+val sub0 : bytes list -> nat -> nat -> bytes
+
+val two : n -> n -> n
+
+val valid_date : bytes -> bool
+
+val valid_time : bytes -> bool
+
+val validateSettlementDate : bytes -> bytes
+
+val ten_zeros : bytes
+
+val trimRoutingNumberLeadingZero : bytes -> bytes
+
+val conv_str : string -> bytes -> bytes option
+
+val conv_chain : string list -> bytes -> bytes option
+
+val conv_value : string list -> bytes -> value option
+
+val parse_cut : bytes list -> cut -> (string * value) list
+
+val parse : layout -> bytes -> recval
+
+val overlay : recval -> recval -> recval
+
+val l_ADVBatchControl : layout
+
+val l_ADVEntryDetail : layout
+
+val l_ADVFileControl : layout
+
+val l_Addenda02 : layout
+
+val l_Addenda05 : layout
+
+val l_Addenda10 : layout
+
+val l_Addenda11 : layout
+
+val l_Addenda12 : layout
+
+val l_Addenda13 : layout
+
+val l_Addenda14 : layout
+
+val l_Addenda15 : layout
+
+val l_Addenda16 : layout
+
+val l_Addenda17 : layout
+
+val l_Addenda18 : layout
+
+val l_Addenda98 : layout
+
+val l_Addenda98Refused : layout
+
+val l_Addenda99 : layout
+
+val l_Addenda99Contested : layout
+
+val l_Addenda99Dishonored : layout
+
+val l_BatchControl : layout
+
+val l_BatchHeader : layout
+
+val l_EntryDetail : layout
+
+val l_FileControl : layout
+
+val l_FileHeader : layout
+
+val l_IATBatchHeader : layout
+
+val l_IATEntryDetail : layout
+
+val all_layouts : layout list
